@@ -57,6 +57,17 @@ Sensitivity (quick tier, seed 1, scratch copy of /repo/tornado, one mutant at a 
   M7 check_origin: ports ignored on both sides                                 -> C17.invalid_upgrade_completed (origin)
   M8 _accept_connection: first offered subprotocol echoed when handler chose none -> C17.subprotocol_echo_unselected
 Added after independent mutation testing found gaps:
+  M11 client _process_server_headers: Sec-WebSocket-Accept compared case-insensitively (.lower() on both sides)
+     -> C17.client_accepted_bad_response (accept), seeds 1-3 (before: seed 1 only).  Accept near-misses are now systematic:
+     lower / upper / swapcase / one letter flipped (a different digest), no padding, extra padding, quoted, the accept of
+     another key, empty, missing, truncated, hex digest, key echo, wrong-then-right duplicate -- all must be refused;
+     EITHER: optional whitespace around the value (not part of a field value, RFC 9110 5.5) and a duplicated field whose
+     first line is right.  Part `client_accept_grid` enumerates every variant x both client styles x with/without deflate.
+  M12 (C14's) _accept_connection keeps the compressor of a DECLINED permessage-deflate offer -> C17.frames_after_101
+     (rsv1_without_extension).  The handler now writes one greeting right after every 101 and the bytes after the response
+     head must decode, under what the response agreed, to exactly that message; more to-be-declined offers
+     (client_max_window_bits=16/0, duplicates, *_no_context_takeover with a value, unknown value-less parameter, two
+     offers) joined the EITHER list, and part `server_ext_grid` enumerates every offer x compression off/on/level 9.
   M10 client headers_received: selected subprotocol checked by SUBSTRING of the raw request header instead of list
      membership -> C17.client_accepted_bad_response (subprotocol_not_offered; offer ["chat"], selection "at").  The scripted
      server now also selects values derived from the offer that are not offered names (tail/head/middle fragments such as
@@ -162,8 +173,17 @@ EXT_OFFERS = [
     "permessage-deflate; client_max_window_bits=7",
     "permessage-deflate; foo=1",
     "permessage-deflate; server_max_window_bits=10; server_max_window_bits=11",
+    "permessage-deflate; client_max_window_bits=16",
+    "permessage-deflate; client_max_window_bits=0",
+    "permessage-deflate; client_max_window_bits=10; client_max_window_bits=7",
+    "permessage-deflate; server_no_context_takeover=1",
+    "permessage-deflate; client_no_context_takeover=yes",
+    "permessage-deflate; bar",
+    "permessage-deflate; client_max_window_bits=7, permessage-deflate; client_max_window_bits=16",
+    "permessage-deflate; client_max_window_bits=7, permessage-deflate",
 ]
-MALFORMED_EXT = set(EXT_OFFERS[-7:])
+MALFORMED_EXT = set(EXT_OFFERS[EXT_OFFERS.index("permessage-deflate; client_max_window_bits=abc"):])
+GREETING = "hello world, " * 12      # written by the handler right after the handshake
 compression_s = st.sampled_from([None, None, {}, {}, {"compression_level": 1}, {"compression_level": 9, "mem_level": 1}])
 
 server_case_s = st.fixed_dictionaries({
@@ -367,9 +387,17 @@ def run_server_case(ctx, case):
     rec = H.Recorder()
     app = H.make_app(rec, compression=case["compression"], behaviour={"select_subprotocol": choose})
 
+    greeted = []
+
     async def scenario():
         s = H.ServerSession(app)
         await s.send(request, H.segments(len(request), case["segs"], cap=len(case["segs"]), bulk=1 << 20))
+        if rec.handler is not None and not s.closed:
+            # the agreement is whatever the 101 says: the first message the server writes must be framed accordingly
+            # (no RSV1 / deflate unless an extension was agreed)
+            rec.handler.write_message(GREETING)
+            greeted.append(True)
+            await s.settle()
         wire, closed = s.wire, s.closed
         if not s.closed:
             s.stream.close()
@@ -454,11 +482,19 @@ def run_server_case(ctx, case):
             if off_param_sets and case["compression"] is not None and "malformed_ext_param" not in either:
                 # offered and enabled: Tornado documents that compression is then enabled
                 ctx.fail("C17.extension_offered_enabled_not_negotiated", detail)
-        if head.rest:
-            # after the 101 only WebSocket frames may follow; nothing was asked for, so nothing is expected
-            d = wsref.decode_all(head.rest, expect_masked=False)
-            if d.error or d.leftover:
-                ctx.fail("C17.bytes_after_101", dict(detail, rest=head.rest[:80]))
+        # after the 101 only WebSocket frames follow: exactly the greeting, framed as the response agreed
+        inflater = None
+        strict = True
+        if resp_ext:
+            try:
+                inflater = wsref.deflate_params_from(wsref.parse_extensions(",".join(resp_ext))[0][1]).inflater("server")
+            except (wsref.RefError, IndexError):
+                strict = False      # a response the reference cannot interpret (malformed offer echoed back): EITHER
+        if strict and greeted:
+            d = wsref.decode_all(head.rest, expect_masked=False, inflater=inflater)
+            if d.error or d.leftover or [e[1] for e in d.messages()] != [GREETING]:
+                ctx.fail("C17.frames_after_101", dict(detail, verdict=d.error, frames=[f.brief() for f in d.frames[:2]], resp_ext=resp_ext))
+            labels.add("greeting_compressed" if inflater is not None and d.frames and d.frames[0].rsv1 else "greeting_plain")
     else:
         labels.add("status_%s" % code)
         if rec.opened:
@@ -499,8 +535,11 @@ def run_server_case(ctx, case):
 
 
 # ------------------------------------------------------------------------------------------- client
-ACCEPT_VARIANTS = ["right"] * 30 + ["missing", "empty", "lower", "no_guid", "guid_lower", "other_key",
-                   "sha1_hex", "truncated", "padded_space", "key_echo"]
+ACCEPT_BAD = ["missing", "empty", "lower", "upper", "swapcase", "one_letter_flipped", "no_guid", "guid_lower", "other_key",
+              "sha1_hex", "truncated", "no_padding", "extra_padding", "quoted", "padded_space", "key_echo", "wrong_then_right"]
+# EITHER: optional whitespace around a field value is not part of it (RFC 9110 5.5); a repeated singleton field
+ACCEPT_EITHER = ["trailing_ws", "leading_ws", "duplicated_same", "right_then_wrong"]
+ACCEPT_VARIANTS = ["right"] * 30 + ACCEPT_BAD + ACCEPT_EITHER
 CLIENT_EXT = [
     None, None, None,
     ("ok", "permessage-deflate"),
@@ -579,6 +618,27 @@ def accept_variant(kind, key):
         return " "
     if kind == "lower":
         return right.lower() if right.lower() != right else right.upper()
+    if kind == "upper":
+        return right.upper() if right.upper() != right else right.lower()
+    if kind == "swapcase":
+        return right.swapcase()
+    if kind == "one_letter_flipped":
+        i = next(i for i, c in enumerate(right) if c.isalpha())
+        return right[:i] + right[i].swapcase() + right[i + 1:]
+    if kind == "no_padding":
+        return right.rstrip("=")
+    if kind == "extra_padding":
+        return right + "="
+    if kind == "quoted":
+        return '"' + right + '"'
+    if kind == "trailing_ws":
+        return right + " \t"
+    if kind == "leading_ws":
+        return "  " + right
+    if kind in ("duplicated_same", "right_then_wrong"):
+        return right            # the second field line is added by the caller
+    if kind == "wrong_then_right":
+        return wsref.accept_value("dGhlIHNhbXBsZSBub25jZQ==")
     if kind == "no_guid":
         return base64.b64encode(hashlib.sha1(key.encode()).digest()).decode()
     if kind == "guid_lower":
@@ -618,6 +678,12 @@ def run_client_case(ctx, case):
         out["key"] = key
         accept = accept_variant(case["accept"], key)
         extra = []
+        if case["accept"] == "duplicated_same":
+            extra.append("Sec-WebSocket-Accept: " + accept)
+        elif case["accept"] == "right_then_wrong":
+            extra.append("Sec-WebSocket-Accept: " + wsref.accept_value("dGhlIHNhbXBsZSBub25jZQ=="))
+        elif case["accept"] == "wrong_then_right":
+            extra.append("Sec-WebSocket-Accept: " + wsref.accept_value(key))
         if not case["status"].startswith("101"):
             extra.append("Content-Length: 0")
         resp = srv.response(ext=case["ext"][1] if case["ext"] else None, accept=accept, protocol=proto,
@@ -685,9 +751,14 @@ def run_client_case(ctx, case):
     reasons_bad, reasons_either = [], []
     if not case["status"].startswith("101"):
         reasons_bad.append("status")
-    if case["accept"] != "right":
+    if case["accept"] in ACCEPT_EITHER:
+        reasons_either.append("accept_" + case["accept"])
+        labels.add("client_accept_either")
+    elif case["accept"] != "right":
         reasons_bad.append("accept")
         labels.add("client_bad_accept")
+        if case["accept"] in ("lower", "upper", "swapcase", "one_letter_flipped"):
+            labels.add("client_accept_differs_in_case_only")
     if case["upgrade"] is None or case["upgrade"].lower() != "websocket":
         reasons_bad.append("upgrade")
     if case["connection"] is None or case["connection"].lower() != "upgrade":
@@ -757,13 +828,33 @@ def client_subprotocol_grid():
                    "compression": None, "offer_protocols": offer, "protocol": sel, "callback_mode": True, "segs": [], "seed": b"\x00"}
 
 
+def client_accept_grid():
+    """Deterministic: every accept variant with an otherwise canonical 101 (both client styles, with/without deflate)."""
+    for kind in ["right"] + ACCEPT_BAD + ACCEPT_EITHER:
+        for cb in (True, False):
+            for comp, ext in ((None, None), ({}, ("ok", "permessage-deflate"))):
+                yield {"status": "101 Switching Protocols", "accept": kind, "upgrade": "websocket", "connection": "Upgrade", "ext": ext,
+                       "compression": comp, "offer_protocols": None, "protocol": None, "callback_mode": cb, "segs": [], "seed": b"\x07"}
+
+
+def server_ext_grid():
+    """Deterministic: every extension offer of EXT_OFFERS x compression off/on with all other factors canonical."""
+    base = {"method": "GET", "http": "HTTP/1.1", "upgrade": "websocket", "connection": "Upgrade", "key": ("b64", bytes(range(16, 32))), "wsver": "13",
+            "host": "example.com", "origin": None, "origin_header": "Origin", "protocols": None, "policy": "none", "lower_names": False, "segs": []}
+    for ext in sorted({e for e in EXT_OFFERS if e is not None}):
+        for comp in (None, {}, {"compression_level": 9, "mem_level": 1}):
+            yield dict(base, ext=ext, compression=comp)
+
+
 PARTS = {"server": run_server_case, "client": run_client_case, "connection_grid": run_server_case,
-         "client_subprotocol_grid": run_client_case}
+         "client_subprotocol_grid": run_client_case, "client_accept_grid": run_client_case, "server_ext_grid": run_server_case}
 
 
 def main(ctx):
     ctx.run_replays(PARTS)
     ctx.enumerate(connection_grid(), run_server_case, name="connection_grid")
     ctx.enumerate(client_subprotocol_grid(), run_client_case, name="client_subprotocol_grid")
+    ctx.enumerate(client_accept_grid(), run_client_case, name="client_accept_grid")
+    ctx.enumerate(server_ext_grid(), run_server_case, name="server_ext_grid")
     ctx.explore(server_case_s, run_server_case, ctx.n(3000, 48000), name="server")
     ctx.explore(client_case_s, run_client_case, ctx.n(1200, 16000), name="client")
